@@ -421,22 +421,191 @@ func c05Pair(r *vRand) (string, []KeyValue, []KeyValue) {
 	}
 }
 
-func c05MkSet(gen string, kvs []KeyValue) Set {
-	if gen == "zero" && len(kvs) == 0 {
+// ---- constructor diversity -------------------------------------------------------------------
+// Every typed value can be built through several public constructors (XValue functions, the
+// helpers of kv.go, the Key methods of key.go, the int flavours, Stringer; nil or empty slices).
+// A generator tag may end in "~X" or "~XY" (hex digits): the constructor family used for the
+// (first, second) input of the line. The tokens on the line are the typed values, whatever built them.
+
+type c05Str string
+
+func (s c05Str) String() string { return string(s) }
+
+const c05Families = 12
+
+func c05Fam(gen string) (base string, fa, fb int) {
+	base = gen
+	if i := strings.IndexByte(gen, '~'); i >= 0 {
+		base = gen[:i]
+		d := gen[i+1:]
+		if len(d) >= 1 {
+			x, _ := strconv.ParseUint(d[:1], 16, 8)
+			fa, fb = int(x)%c05Families, int(x)%c05Families
+		}
+		if len(d) >= 2 {
+			y, _ := strconv.ParseUint(d[1:2], 16, 8)
+			fb = int(y) % c05Families
+		}
+	}
+	return
+}
+
+// c05Build rebuilds one key-value (same key, same typed value) through constructor family f.
+func c05Build(kv KeyValue, f int) KeyValue {
+	k, v := string(kv.Key), kv.Value
+	c := f % 6
+	nilEmpty := f/6 == 1 // hand a nil slice instead of an empty one
+	switch v.Type() {
+	case BOOL:
+		b := v.AsBool()
+		switch c % 3 {
+		case 0:
+			return KeyValue{Key: Key(k), Value: BoolValue(b)}
+		case 1:
+			return Bool(k, b)
+		}
+		return Key(k).Bool(b)
+	case INT64:
+		x := v.AsInt64()
+		switch c {
+		case 0:
+			return KeyValue{Key: Key(k), Value: Int64Value(x)}
+		case 1:
+			return Int64(k, x)
+		case 2:
+			return Key(k).Int64(x)
+		case 3:
+			return KeyValue{Key: Key(k), Value: IntValue(int(x))}
+		case 4:
+			return Int(k, int(x))
+		}
+		return Key(k).Int(int(x))
+	case FLOAT64:
+		x := v.AsFloat64()
+		switch c % 3 {
+		case 0:
+			return KeyValue{Key: Key(k), Value: Float64Value(x)}
+		case 1:
+			return Float64(k, x)
+		}
+		return Key(k).Float64(x)
+	case STRING:
+		x := v.AsString()
+		switch c % 4 {
+		case 0:
+			return KeyValue{Key: Key(k), Value: StringValue(x)}
+		case 1:
+			return String(k, x)
+		case 2:
+			return Key(k).String(x)
+		}
+		return Stringer(k, c05Str(x))
+	case BOOLSLICE:
+		xs := v.AsBoolSlice()
+		if len(xs) == 0 && nilEmpty {
+			xs = nil
+		}
+		switch c % 3 {
+		case 0:
+			return KeyValue{Key: Key(k), Value: BoolSliceValue(xs)}
+		case 1:
+			return BoolSlice(k, xs)
+		}
+		return Key(k).BoolSlice(xs)
+	case INT64SLICE:
+		xs := v.AsInt64Slice()
+		if len(xs) == 0 && nilEmpty {
+			xs = nil
+		}
+		var is []int
+		if xs != nil {
+			is = make([]int, len(xs))
+			for i, x := range xs {
+				is[i] = int(x)
+			}
+		}
+		switch c {
+		case 0:
+			return KeyValue{Key: Key(k), Value: Int64SliceValue(xs)}
+		case 1:
+			return Int64Slice(k, xs)
+		case 2:
+			return Key(k).Int64Slice(xs)
+		case 3:
+			return KeyValue{Key: Key(k), Value: IntSliceValue(is)}
+		case 4:
+			return IntSlice(k, is)
+		}
+		return Key(k).IntSlice(is)
+	case FLOAT64SLICE:
+		xs := v.AsFloat64Slice()
+		if len(xs) == 0 && nilEmpty {
+			xs = nil
+		}
+		switch c % 3 {
+		case 0:
+			return KeyValue{Key: Key(k), Value: Float64SliceValue(xs)}
+		case 1:
+			return Float64Slice(k, xs)
+		}
+		return Key(k).Float64Slice(xs)
+	case STRINGSLICE:
+		xs := v.AsStringSlice()
+		if len(xs) == 0 && nilEmpty {
+			xs = nil
+		}
+		switch c % 3 {
+		case 0:
+			return KeyValue{Key: Key(k), Value: StringSliceValue(xs)}
+		case 1:
+			return StringSlice(k, xs)
+		}
+		return Key(k).StringSlice(xs)
+	}
+	return KeyValue{Key: Key(k)}
+}
+
+// c05BuildAll returns a fresh slice with every element rebuilt through family f.
+func c05BuildAll(kvs []KeyValue, f int) []KeyValue {
+	if kvs == nil {
+		return nil
+	}
+	out := make([]KeyValue, len(kvs))
+	for i, kv := range kvs {
+		out[i] = c05Build(kv, f)
+	}
+	return out
+}
+
+var c05FamPairs = []string{"03", "30", "09", "90", "14", "41", "25", "52", "6b", "b6", "39", "93", "7a", "a7", "8b", "44"}
+
+// c05Tag decorates a generator tag with a constructor family (single) or a pair of families.
+func c05Tag(r *vRand, gen string, pair bool) string {
+	if r.Intn(5) < 2 {
+		return gen
+	}
+	if pair {
+		return gen + "~" + vPick(r, c05FamPairs)
+	}
+	return gen + "~" + strconv.FormatInt(int64(r.Intn(c05Families)), 16)
+}
+
+func c05MkSet(base string, kvs []KeyValue, f int) Set {
+	if base == "zero" && len(kvs) == 0 {
 		return Set{}
 	}
-	return NewSet(c05Clone(kvs)...)
+	return NewSet(c05BuildAll(kvs, f)...)
 }
 
 type c05Emitter struct{ out *vOut }
 
 func (e c05Emitter) newset(gen string, in []KeyValue, ftok string) {
-	orig := c05Clone(in)
-	work := c05Clone(in)
+	base, fa, _ := c05Fam(gen)
+	work := c05BuildAll(in, fa)
 	var s Set
 	var dropped []KeyValue
 	f := c05ParseFilter(ftok)
-	if f == nil && gen == "variadic" {
+	if f == nil && base == "variadic" {
 		s = NewSet(work...)
 	} else {
 		s, dropped = NewSetWithFiltered(work, f)
@@ -445,17 +614,19 @@ func (e c05Emitter) newset(gen string, in []KeyValue, ftok string) {
 	if s.Len() != len(sl) {
 		sl = append(sl, KeyValue{Key: "BADLEN"})
 	}
-	e.out.Line("newset %s %s %s => %s %s %s", gen, c05KVs(orig), ftok, c05KVs(sl), c05KVs(dropped), c05KVs(work))
+	e.out.Line("newset %s %s %s => %s %s %s", gen, c05KVs(in), ftok, c05KVs(sl), c05KVs(dropped), c05KVs(work))
 }
 
 func (e c05Emitter) filter(gen string, in []KeyValue, ftok string) {
-	s := NewSet(c05Clone(in)...)
+	_, fa, _ := c05Fam(gen)
+	s := NewSet(c05BuildAll(in, fa)...)
 	kept, dropped := s.Filter(c05ParseFilter(ftok))
 	e.out.Line("filter %s %s %s => %s %s %s", gen, c05KVs(in), ftok, c05KVs(kept.ToSlice()), c05KVs(dropped), c05KVs(s.ToSlice()))
 }
 
 func (e c05Emitter) value(gen string, in []KeyValue, k string) {
-	s := NewSet(c05Clone(in)...)
+	_, fa, _ := c05Fam(gen)
+	s := NewSet(c05BuildAll(in, fa)...)
 	v, ok := s.Value(Key(k))
 	res := "-"
 	if ok {
@@ -468,12 +639,14 @@ func (e c05Emitter) value(gen string, in []KeyValue, k string) {
 }
 
 func (e c05Emitter) equal(gen string, a, b []KeyValue) {
-	sa, sb := c05MkSet(gen, a), c05MkSet(gen, b)
+	base, fa, fb := c05Fam(gen)
+	sa, sb := c05MkSet(base, a, fa), c05MkSet(base, b, fb)
 	e.out.Line("equal %s %s %s => %d %d %d", gen, c05KVs(a), c05KVs(b), c05B(sa.Equals(&sb)), c05B(sb.Equals(&sa)), c05B(sa.Equals(&sa)))
 }
 
 func (e c05Emitter) mapkey(gen string, a, b []KeyValue) {
-	sa, sb := c05MkSet(gen, a), c05MkSet(gen, b)
+	base, fa, fb := c05Fam(gen)
+	sa, sb := c05MkSet(base, a, fa), c05MkSet(base, b, fb)
 	m := map[Distinct]int{}
 	m[sa.Equivalent()] = 1
 	_, found := m[sb.Equivalent()]
@@ -482,7 +655,8 @@ func (e c05Emitter) mapkey(gen string, a, b []KeyValue) {
 }
 
 func (e c05Emitter) merge(gen string, a, b []KeyValue) {
-	sa, sb := c05MkSet(gen, a), c05MkSet(gen, b)
+	base, fa, fb := c05Fam(gen)
+	sa, sb := c05MkSet(base, a, fa), c05MkSet(base, b, fb)
 	it := NewMergeIterator(&sa, &sb)
 	var got []KeyValue
 	for it.Next() {
@@ -492,12 +666,238 @@ func (e c05Emitter) merge(gen string, a, b []KeyValue) {
 }
 
 func (e c05Emitter) encode(gen string, in []KeyValue) {
-	s := NewSet(c05Clone(in)...)
+	_, fa, _ := c05Fam(gen)
+	s := NewSet(c05BuildAll(in, fa)...)
 	em := "E"
 	for _, kv := range s.ToSlice() {
 		em += "." + c05Hex(kv.Value.Emit())
 	}
 	e.out.Line("encode %s %s %s => x%s", gen, c05KVs(in), em, c05Hex(s.Encoded(DefaultEncoder())))
+}
+
+// ---- scripts with temporal re-observation ------------------------------------------------------
+// seq: several calls on several Sets; EVERY result (Sets, dropped slices, caller's slices, merged
+// lists, looked-up values) is kept alive and dumped a second time after the last call.
+
+type c05SeqOp struct {
+	kind string // set | newset | filter | merge | value
+	kvs  []KeyValue
+	ftok string
+	i, j int
+	key  string
+}
+
+func (o c05SeqOp) String() string {
+	switch o.kind {
+	case "set":
+		return "set " + c05KVs(o.kvs)
+	case "newset":
+		return "newset " + c05KVs(o.kvs) + " " + o.ftok
+	case "filter":
+		return fmt.Sprintf("filter %d %s", o.i, o.ftok)
+	case "merge":
+		return fmt.Sprintf("merge %d %d", o.i, o.j)
+	}
+	return fmt.Sprintf("value %d x%s", o.i, c05Hex(o.key))
+}
+
+func c05ParseSeq(toks []string) []c05SeqOp {
+	var ops []c05SeqOp
+	for i := 0; i < len(toks); {
+		j := i
+		for j < len(toks) && toks[j] != "|" {
+			j++
+		}
+		g := toks[i:j]
+		op := c05SeqOp{kind: g[0]}
+		switch g[0] {
+		case "set":
+			op.kvs = c05ParseKVs(g[1])
+		case "newset":
+			op.kvs, op.ftok = c05ParseKVs(g[1]), g[2]
+		case "filter":
+			op.i, _ = strconv.Atoi(g[1])
+			op.ftok = g[2]
+		case "merge":
+			op.i, _ = strconv.Atoi(g[1])
+			op.j, _ = strconv.Atoi(g[2])
+		case "value":
+			op.i, _ = strconv.Atoi(g[1])
+			op.key = c05Unhex(strings.TrimPrefix(g[2], "x"))
+		default:
+			panic("bad seq op " + g[0])
+		}
+		ops = append(ops, op)
+		i = j + 1
+	}
+	return ops
+}
+
+func (e c05Emitter) seq(gen string, ops []c05SeqOp) {
+	_, fa, _ := c05Fam(gen)
+	var sets []*Set
+	var in, atReturn []string
+	var redump []func() string
+	// a Set is re-read with a fresh ToSlice at the end; a slice handed out is re-read as it is now
+	for _, op := range ops {
+		in = append(in, op.String())
+		switch op.kind {
+		case "set":
+			s := NewSet(c05BuildAll(op.kvs, fa)...)
+			sets = append(sets, &s)
+			sl := s.ToSlice()
+			first := c05KVs(sl)
+			atReturn = append(atReturn, first)
+			redump = append(redump, func() string {
+				if now := c05KVs(sl); now != first {
+					return now // the slice ToSlice handed out has changed
+				}
+				return c05KVs(s.ToSlice())
+			})
+		case "newset":
+			work := c05BuildAll(op.kvs, fa)
+			s, dropped := NewSetWithFiltered(work, c05ParseFilter(op.ftok))
+			sets = append(sets, &s)
+			atReturn = append(atReturn, c05KVs(s.ToSlice())+" "+c05KVs(dropped)+" "+c05KVs(work))
+			redump = append(redump, func() string {
+				return c05KVs(s.ToSlice()) + " " + c05KVs(dropped) + " " + c05KVs(work)
+			})
+		case "filter":
+			src := sets[op.i]
+			kept, dropped := src.Filter(c05ParseFilter(op.ftok))
+			sets = append(sets, &kept)
+			atReturn = append(atReturn, c05KVs(kept.ToSlice())+" "+c05KVs(dropped)+" "+c05KVs(src.ToSlice()))
+			redump = append(redump, func() string {
+				return c05KVs(kept.ToSlice()) + " " + c05KVs(dropped) + " " + c05KVs(src.ToSlice())
+			})
+		case "merge":
+			it := NewMergeIterator(sets[op.i], sets[op.j])
+			var got []KeyValue
+			for it.Next() {
+				got = append(got, it.Attribute())
+			}
+			atReturn = append(atReturn, c05KVs(got))
+			redump = append(redump, func() string { return c05KVs(got) })
+		case "value":
+			v, ok := sets[op.i].Value(Key(op.key))
+			show := func() string {
+				if !ok {
+					return "-"
+				}
+				return "=" + c05Val(v)
+			}
+			atReturn = append(atReturn, show())
+			redump = append(redump, show)
+		}
+	}
+	atEnd := make([]string, len(redump))
+	for i, f := range redump {
+		atEnd[i] = f()
+	}
+	e.out.Line("seq %s %s => %s ;; %s", gen, strings.Join(in, " | "), strings.Join(atReturn, " | "), strings.Join(atEnd, " | "))
+}
+
+// reference contents (only to steer the generator towards the three code paths of Set.Filter)
+func c05Apply(contents []KeyValue, ftok string) (kept []KeyValue) {
+	f := c05ParseFilter(ftok)
+	for _, kv := range contents {
+		if f == nil || f(kv) {
+			kept = append(kept, kv)
+		}
+	}
+	return
+}
+
+func c05MinKey(contents []KeyValue) string {
+	m := string(contents[0].Key)
+	for _, kv := range contents {
+		if string(kv.Key) < m {
+			m = string(kv.Key)
+		}
+	}
+	return m
+}
+
+// a filter for a Set with the given contents: shape 0 nothing dropped, 1 only the smallest key
+// dropped (the `first == 0` fast path), 2 general, 3 everything dropped
+func c05ShapeFilter(r *vRand, contents []KeyValue, pool []string, shape int) string {
+	if len(contents) == 0 {
+		return vPick(r, []string{"allow", "deny", "nil"})
+	}
+	switch shape {
+	case 0:
+		return vPick(r, []string{"deny." + c05Hex("nokey"), "deny", "nil"})
+	case 1:
+		return "deny." + c05Hex(c05MinKey(contents))
+	case 3:
+		return "allow"
+	}
+	if len(contents) >= 2 && r.Bool() {
+		// drop one key that is not the smallest
+		min := c05MinKey(contents)
+		for tries := 0; tries < 8; tries++ {
+			k := string(contents[r.Intn(len(contents))].Key)
+			if k != min {
+				return "deny." + c05Hex(k)
+			}
+		}
+	}
+	return c05GenFilter(r, pool)
+}
+
+func c05GenSeq(r *vRand) []c05SeqOp {
+	var ops []c05SeqOp
+	var contents [][]KeyValue // reference contents of the Sets created so far
+	pools := [][]string{}
+	addSet := func() {
+		kvs, pool := c05GenSlice(r)
+		switch r.Intn(6) {
+		case 0: // larger than the usual scratch capacity
+		case 1, 2, 3:
+			if len(kvs) > 4 {
+				kvs = kvs[:1+r.Intn(4)]
+			}
+		default:
+			if len(kvs) > 8 {
+				kvs = kvs[:8]
+			}
+		}
+		ops = append(ops, c05SeqOp{kind: "set", kvs: kvs})
+		contents = append(contents, c05Winners(kvs))
+		pools = append(pools, pool)
+	}
+	for n := 1 + r.Intn(3); n > 0; n-- {
+		addSet()
+	}
+	addFilter := func(shape int) {
+		i := r.Intn(len(contents))
+		ft := c05ShapeFilter(r, contents[i], pools[i], shape)
+		ops = append(ops, c05SeqOp{kind: "filter", i: i, ftok: ft})
+		contents = append(contents, c05Apply(contents[i], ft))
+		pools = append(pools, pools[i])
+	}
+	for n := 1 + r.Intn(5); n > 0; n-- {
+		switch r.Intn(10) {
+		case 0:
+			addSet()
+		case 1:
+			kvs, pool := c05GenSlice(r)
+			ft := c05GenFilter(r, pool)
+			ops = append(ops, c05SeqOp{kind: "newset", kvs: kvs, ftok: ft})
+			contents = append(contents, c05Apply(c05Winners(kvs), ft))
+			pools = append(pools, pool)
+		case 2:
+			ops = append(ops, c05SeqOp{kind: "merge", i: r.Intn(len(contents)), j: r.Intn(len(contents))})
+		case 3:
+			i := r.Intn(len(contents))
+			ops = append(ops, c05SeqOp{kind: "value", i: i, key: vPick(r, pools[i])})
+		default:
+			addFilter(r.Intn(4))
+		}
+	}
+	// always end with a Filter that drops something (it re-uses whatever scratch space Filter has)
+	addFilter(1 + 2*r.Intn(2))
+	return ops
 }
 
 func TestVerifC05Set(t *testing.T) {
@@ -521,12 +921,35 @@ func TestVerifC05Set(t *testing.T) {
 				e.merge(f[1], c05ParseKVs(f[2]), c05ParseKVs(f[3]))
 			case "encode":
 				e.encode(f[1], c05ParseKVs(f[2]))
+			case "seq":
+				e.seq(f[1], c05ParseSeq(f[2:]))
 			}
 		}
 		return
 	}
 	r := &vRand{s: vSeed()}
 	n := vN(20000)
+	{
+		// constructor diversity, exhaustively: one value of every type (and every empty slice) built
+		// through every pair of constructor families must give Equal Sets / one map key
+		vals := []Value{BoolValue(true), Int64Value(5), Int64Value(-1), Float64Value(1.5), StringValue("s"), StringValue(""),
+			BoolSliceValue([]bool{}), BoolSliceValue([]bool{true}), Int64SliceValue([]int64{}), Int64SliceValue([]int64{1, -2}),
+			Float64SliceValue([]float64{}), Float64SliceValue([]float64{1.5}), StringSliceValue([]string{}), StringSliceValue([]string{"a"}), {}}
+		for vi, v := range vals {
+			a := []KeyValue{{Key: "svc", Value: StringValue("x")}, {Key: "ids", Value: v}}
+			b := []KeyValue{{Key: "ids", Value: Int64Value(7)}, {Key: "ids", Value: v}, {Key: "svc", Value: StringValue("x")}}
+			for fa := 0; fa < c05Families; fa++ {
+				for fb := 0; fb < c05Families; fb++ {
+					tag := fmt.Sprintf("ctor~%x%x", fa, fb)
+					if (fa+fb+vi)%3 == 0 {
+						e.mapkey(tag, a, b)
+					} else {
+						e.equal(tag, a, b)
+					}
+				}
+			}
+		}
+	}
 	if os_exhaustive() {
 		// all slices of length <= 4 over 3 keys x 6 values
 		vals := []Value{Int64Value(0), Int64Value(1), StringValue(""), Float64SliceValue([]float64{0}),
@@ -554,6 +977,19 @@ func TestVerifC05Set(t *testing.T) {
 			}
 		}
 		rec(nil, 0)
+		// all ordered pairs of Filter shapes on two small Sets, every result re-read at the end
+		setA := []KeyValue{String("A", "a"), Int("B", 2), Bool("C", true)}
+		setB := []KeyValue{String("X", "x"), Float64("Y", 1.5)}
+		for s1 := 0; s1 < 4; s1++ {
+			for s2 := 0; s2 < 4; s2++ {
+				for tgt := 0; tgt < 2; tgt++ {
+					second := [][]KeyValue{setA, setB}[tgt]
+					e.seq("exh", []c05SeqOp{{kind: "set", kvs: setA}, {kind: "set", kvs: setB},
+						{kind: "filter", i: 0, ftok: c05ShapeFilter(r, setA, c05SmallKeys, s1)},
+						{kind: "filter", i: tgt, ftok: c05ShapeFilter(r, second, c05SmallKeys, s2)}})
+				}
+			}
+		}
 	}
 	for i := 0; i < n; i++ {
 		if i%400 == 7 {
@@ -570,7 +1006,7 @@ func TestVerifC05Set(t *testing.T) {
 			}
 			continue
 		}
-		switch r.Intn(16) {
+		switch r.Intn(19) {
 		case 0, 1, 2, 3:
 			in, pool := c05GenSlice(r)
 			ft := c05GenFilter(r, pool)
@@ -578,30 +1014,30 @@ func TestVerifC05Set(t *testing.T) {
 			if ft == "nil" && r.Bool() {
 				gen = "variadic"
 			}
-			e.newset(gen, in, ft)
+			e.newset(c05Tag(r, gen, false), in, ft)
 		case 4:
 			// permutation / duplication of a base slice: same set expected
 			in, _ := c05GenSlice(r)
-			e.newset("variant", c05Variant(r, in), "nil")
+			e.newset(c05Tag(r, "variant", false), c05Variant(r, in), "nil")
 		case 5, 6, 7:
 			in, pool := c05GenSlice(r)
-			e.filter("rnd", in, c05GenFilter(r, pool))
+			e.filter(c05Tag(r, "rnd", false), in, c05GenFilter(r, pool))
 		case 8, 9:
 			in, pool := c05GenSlice(r)
 			k := vPick(r, pool)
 			if r.Intn(5) == 0 {
 				k = vPick(r, []string{"zz", "0", "a\x00", "\xff", "ac"})
 			}
-			e.value("rnd", in, k)
+			e.value(c05Tag(r, "rnd", false), in, k)
 		case 10, 11:
 			gen, a, b := c05Pair(r)
 			if len(a) == 0 && len(b) == 0 && r.Bool() {
 				gen = "zero"
 			}
-			e.equal(gen, a, b)
+			e.equal(c05Tag(r, gen, true), a, b)
 		case 12:
 			gen, a, b := c05Pair(r)
-			e.mapkey(gen, a, b)
+			e.mapkey(c05Tag(r, gen, true), a, b)
 		case 13, 14:
 			a, _ := c05GenSlice(r)
 			b, _ := c05GenSlice(r)
@@ -611,10 +1047,12 @@ func TestVerifC05Set(t *testing.T) {
 					b = b[:len(b)/2]
 				}
 			}
-			e.merge("rnd", a, b)
-		default:
+			e.merge(c05Tag(r, "rnd", true), a, b)
+		case 15:
 			in, _ := c05GenSlice(r)
-			e.encode("rnd", in)
+			e.encode(c05Tag(r, "rnd", false), in)
+		default:
+			e.seq(c05Tag(r, "rnd", false), c05GenSeq(r))
 		}
 	}
 }
